@@ -79,7 +79,7 @@ func init() {
 							return false
 						}
 						ch, ok := c.Call.Args[2].(*ssa.Call)
-						if !ok || calleeName(ch) != "gabi.createChallenge" {
+						if !ok || !calleeIs(ch, "gabi.createChallenge") {
 							return false
 						}
 						ar := ch.Call.Args
@@ -229,7 +229,7 @@ func oversizedHashRule(P *Program, R *Report) {
 	for _, fn := range P.AllFuncs {
 		for _, c := range callsIn(fn) {
 			call, ok := c.(*ssa.Call)
-			if !ok || calleeName(call) != "common.IntHashSha256" {
+			if !ok || !calleeIs(call, "common.IntHashSha256") {
 				continue
 			}
 			R.seen(FuncKey(fn))
